@@ -37,7 +37,7 @@ TOL = 1e-12
 def BOUNDS(tier):
     return {"meshes": "<= 4 cells", "tensor_order": "<= 4", "preemption_bound": 2 if tier == "thorough" else 1, "pool_sizes": [2, 3, 5],
             "thread_models": "Line 1/2 cells scalar+vector, Quad 1 cell scalar (4-16 threads): all schedules up to the preemption bound; join(t) waits for t only",
-            "many_thread_models": "triangle 1 cell 2-vector (36 threads), quad 1 cell 3-vector (144); thorough: quad8 (256), hexahedron (576): delay-bounded, 1 delay, at thread boundaries (quick) / every yield point, capped 2500 (thorough)",
+            "many_thread_models": "triangle 1 cell 2-vector (36 threads), quad 1 cell 3-vector (144); thorough: quad8 (256), hexahedron (576): delay-bounded, 1 delay, at thread boundaries (quick) / every yield point, capped 900 (thorough)",
             "reuse_histories": "3 geometries x ordered pairs x {dual kept, displacement kept} x {assembled before or not}, (u,p,J) 3d / plane strain / axisymmetric"}
 
 
@@ -864,12 +864,12 @@ def run_threads(case):
     def go():
         return F.assemble(parallel=True, **kw).toarray()
 
-    cap = 80000 if case["tier"] == "thorough" else 4000
+    cap = 25000 if case["tier"] == "thorough" else 4000
     if case.get("delay"):
         # many threads: all schedules with at most one delay; at thread boundaries in the quick tier, at every yield
         # point (capped) in the thorough tier
         bound = 1
-        results, stats = sched.explore_delays(go, [mb, ml], ("_bilinear.py", "_linear.py", "c02.py"), bound=1, cap=2500 if case["tier"] == "thorough" else 400, free_only=case["tier"] != "thorough")
+        results, stats = sched.explore_delays(go, [mb, ml], ("_bilinear.py", "_linear.py", "c02.py"), bound=1, cap=900 if case["tier"] == "thorough" else 400, free_only=case["tier"] != "thorough")
         c.outcomes.add(f"unjoined-threads-at-return={stats['max_unjoined']}")
         results = [(a, b) for a, b, _ in results]
     else:
